@@ -299,6 +299,9 @@ class DIP:
                     # Add parsed nodes to the queue and continue
                     queue.nodes.prepend(parsed)
                     continue
+                elif node.keyword==ImportNode.keyword:
+                    # Import that selects no nodes adds nothing
+                    continue
             # Create hierarchical name
             target.hierarchy.register(node, self.nodes_nohierarchy)
             # Add nodes to the node list
